@@ -1015,6 +1015,9 @@ class Engine:
             if isinstance(d_.ty, TDict) and d_.ty.k in (INT, REAL):
                 return self.sorted_items(d_, ctx)
         v = ev.ev(n.args[0], ctx)
+        if isinstance(v.ty, TList) and len(n.keywords) == 1 and n.keywords[0].arg == 'key' and isinstance(n.keywords[0].value, ast.Lambda) \
+                and len(n.keywords[0].value.args.args) == 1:
+            return self.sorted_list_by_key(v, n.keywords[0].value, ctx, ev)
         if n.keywords:
             # only key=lambda x: (x[0], x[1], .., x[m-1]) on a set of m-tuples of ints: the identity key, i.e. plain lexicographic order
             ok = len(n.keywords) == 1 and n.keywords[0].arg == 'key' and isinstance(n.keywords[0].value, ast.Lambda) \
@@ -1032,6 +1035,36 @@ class Engine:
         if isinstance(v.ty, TSet):
             return self.sorted_of_set(v, ctx)
         raise OutOfSubset(f'sorted({v.ty})')
+
+    def sorted_list_by_key(self, v, lam, ctx, ev):
+        """sorted(L, key=lambda x: k(x)) on a list: a list of the same length which IS L when L is already in non-decreasing key order
+        (LC-SORT-STABLE: Python's sort is stable, so an already sorted list is returned element for element); otherwise only the length
+        is known (the permutation is not modelled)"""
+        lt = v.ty
+        r = fresh('sorted', lt.sort())
+        n_ = lt.n(v.t)
+        j, k = z3.Int('j!srt'), z3.Int('k!srt')
+
+        def key_at(ix):
+            saved = dict(ctx.env)
+            ctx.env[lam.args.args[0].arg] = V(lt.elem, z3.Select(lt.arr(v.t), ix))
+            try:
+                kv = ev.ev(lam.body, ctx)
+            finally:
+                ctx.env.clear()
+                ctx.env.update(saved)
+            if not is_num(kv):
+                raise OutOfSubset('sorted(list, key=..) with a non-numeric key')
+            return to_real(kv)
+        n_as = len(ctx.assumes)
+        kj, kk = key_at(j), key_at(k)
+        self._close_assumes(ctx, n_as, [j, k])
+        in_order = z3.ForAll([j, k], z3.Implies(z3.And(0 <= j, j <= k, k < n_), kj <= kk))
+        ctx.assume(lt.n(r) == n_)
+        ctx.assume(z3.Implies(in_order, r == v.t))
+        self.libs_used.add('LC-SORT-STABLE: sorted(L, key=f) has the length of L and IS L when L is already in non-decreasing key order '
+                           '(stable sort); the permutation of an unsorted list is not modelled')
+        return V(lt, r)
 
     def bi_list(self, n, ctx, ev):
         if not n.args:
